@@ -11,7 +11,7 @@ from __future__ import annotations
 from ..core import Ctx
 from .. import sitecheck
 from ..sitecheck import (kf_link_to_hidden, kf_hidden_root_listed, kf_overrides_note_hidden,    # noqa: F401
-                         kf_main_module_ignores_rules)    # noqa: F401  (known_findings "py")
+                         kf_main_module_ignores_rules, kf_sidebar_names_hidden_origin_module)    # noqa: F401  (known_findings "py")
 
 
 def run(ctx: Ctx) -> int:
